@@ -264,6 +264,7 @@ fn metadata_shapes(ctx: &mut Ctx, case: u64) {
                 alias_leaf_offset: false,
                 regular: None,
                 gap_mode: 0,
+                end_at_domain: false,
             };
             let f = gen::gen_foreign(&mut rng, &o);
             let mat = json!({"metadata": name, "codec": R::codec_name(codec)});
@@ -300,6 +301,7 @@ fn metadata_shapes(ctx: &mut Ctx, case: u64) {
                 alias_leaf_offset: false,
                 regular: None,
                 gap_mode: 0,
+                end_at_domain: false,
         };
         let f = gen::gen_foreign(&mut rng, &o);
         if PMTiles::from_bytes(f.bytes).is_err() {
@@ -390,6 +392,7 @@ fn unknown_compression(ctx: &mut Ctx, case: u64) {
                 alias_leaf_offset: false,
                 regular: None,
                 gap_mode: 0,
+                end_at_domain: false,
             };
             let mut f = gen::gen_foreign(&mut rng, &o);
             f.bytes[97] = 0;
@@ -446,6 +449,34 @@ fn unknown_compression(ctx: &mut Ctx, case: u64) {
                 Ok(Ok(_)) => ctx.violation("Directory::from_async_reader", "accepts-unknown-compression", "directory parsed with unknown compression (empty input)", "Ok", json!({"len": len})),
                 Err(p) => ctx.panic("Directory::from_async_reader", &p, json!({"len": len})),
             }
+        }
+    }
+    // the same refusals for large inputs (more than 2^16 entries / tiles)
+    {
+        let big: Vec<pmtiles2::Entry> = (0..66_000u64).map(|k| pmtiles2::Entry { tile_id: k * 2, offset: k * 3, length: 3, run_length: 1 }).collect();
+        let d = Directory::from(big.clone());
+        match guard(|| d.to_writer(&mut Vec::new(), Compression::Unknown)) {
+            Ok(Err(_)) => ctx.count("unknown_compression_refused_directory"),
+            Ok(Ok(())) => ctx.violation("Directory::to_writer", "accepts-unknown-compression", "large directory written with unknown compression", "Ok", json!({"entries": 66_000})),
+            Err(p) => ctx.panic("Directory::to_writer", &p, json!({"entries": 66_000})),
+        }
+        match guard(|| pmtiles2::util::write_directories(&mut std::io::Cursor::new(Vec::new()), &big, Compression::Unknown, None).map(|v| v.len())) {
+            Ok(Err(_)) => ctx.count("unknown_compression_refused_directory"),
+            Ok(Ok(_)) => ctx.violation("util::write_directories", "accepts-unknown-compression", "large directory tree written with unknown compression", "Ok", json!({"entries": 66_000})),
+            Err(p) => ctx.panic("util::write_directories", &p, json!({"entries": 66_000})),
+        }
+        let r = guard(|| {
+            let mut pm = PMTiles::new(TileType::Png, Compression::None);
+            pm.internal_compression = Compression::Unknown;
+            for k in 0..66_000u64 {
+                let _ = pm.add_tile(k * 2, vec![(k % 250) as u8 + 1, 7]);
+            }
+            pm.to_writer(&mut std::io::Cursor::new(Vec::new()))
+        });
+        match r {
+            Ok(Err(_)) => ctx.count("unknown_compression_refused_on_write"),
+            Ok(Ok(())) => ctx.violation("PMTiles::to_writer", "accepts-unknown-compression", "writing a large archive with unknown internal compression succeeds", "to_writer returned Ok", json!({"tiles": 66_000})),
+            Err(p) => ctx.panic("PMTiles::to_writer", &p, json!({"tiles": 66_000})),
         }
     }
     // Directory level
